@@ -69,7 +69,12 @@ def damages(text, rng, quick, all_offsets):
 # constructor options under which a damaged file is opened as well (filters that keep every particle and every event, so the
 # answer the property prescribes is the same as without them; the count checks of the loaders differ between these paths)
 OPTIONS = {"mult_filter": {"filters": {"multiplicity_cut": (0, None)}},
-           "off_switch": {"filters": {"charged_particles": False}}}
+           "off_switch": {"filters": {"charged_particles": False}},
+           # JETSCAPE hadron files: the default particle type not spelled out (the model runs always spell it out)
+           "bare": {},
+           # the intact file was loaded from the very same path just before and the damaged copy has the same modification time
+           # (restored with preserved timestamps): nothing may be remembered per path
+           "intact_first": {}}
 
 
 def ctor_options(case):
@@ -77,14 +82,21 @@ def ctor_options(case):
 
 
 def observe(case, ctx, idx):
-    if case["kind"] == "jet":
-        path = os.path.join(ctx.work, f"d{idx}.dat")
+    jet = case["kind"] == "jet"
+    path = os.path.join(ctx.work, f"d{idx}" + (".dat" if jet else ".oscar"))
+    kw = ctor_options(case)
+    if jet and not (case.get("opts") == "bare" and case["doc"]["ptype"] == "hadron"):
+        kw["particletype"] = case["doc"]["ptype"]
+    load = (lambda: J.observe(path, **kw)) if jet else (lambda: G.observe_oscar(path, **kw))
+    if case.get("opts") == "intact_first":
+        open(path, "w").write(J.render(case["doc"]) if jet else G.render(case["doc"]))
+        load()
+        st = os.stat(path)
         open(path, "w").write(case["text"])
-        obs = J.observe(path, particletype=case["doc"]["ptype"], **ctor_options(case))
+        os.utime(path, ns=(st.st_atime_ns, st.st_mtime_ns))
     else:
-        path = os.path.join(ctx.work, f"d{idx}.oscar")
         open(path, "w").write(case["text"])
-        obs = G.observe_oscar(path, **ctor_options(case))
+    obs = load()
     os.remove(path)
     return obs
 
@@ -241,7 +253,8 @@ def correspondence(ctx, model_ok=True):
                    "single deletion / duplication of a particle line; model (token level, with/without final newline) and real constructor must "
                    "agree on error-vs-loaded and on everything loaded; the property oracle checks error-or-prefix-of-complete-events on the real code; "
                    "every format family (Oscar2013, Extended, ASCII, JETSCAPE hadron and parton) in every run; every deletion/duplication and every "
-                   "fifth cut also opened with constructor options that keep everything (filters={multiplicity_cut:(0,None)}, a False switch) - oracle only",
+                   "fifth cut also opened with constructor options that keep everything (filters={multiplicity_cut:(0,None)}, a False switch), without "
+                   "spelling out the default particle type, and after the intact file was loaded from the same path with the same mtime - oracle only",
            "samples": [{"dmg": c["dmg"], "tail": c["text"][-60:]} for c in cases[40:43]],
            "exhaustive": True, "failures": [], "broken": [],
            "distribution": {"loaded_despite_damage": loaded, "kinds": dict(Counter(c["dmg"][:3] for c in cases)),
@@ -283,7 +296,7 @@ def correspondence(ctx, model_ok=True):
         msg = oracle(cc, o, fulls[c["file"]])
         if msg:
             out["failures"].append(Failure(cc, "property oracle (file opened with constructor options)",
-                                           on_impl=f"opened with {OPTIONS[c['opts']]}: {msg}"))
+                                           on_impl=f"opened with option set '{c['opts']}' {OPTIONS[c['opts']]}: {msg}"))
             if sum(1 for f in out["failures"] if f.case.get("opts")) >= 5:
                 break
     out["distribution"]["opened_with_constructor_options"] = nopt
